@@ -239,6 +239,8 @@ def _spec_len(prog, lens):
         return sum(lens[:prog["catall"]])
     if "touch" in prog:
         return _spec_len(prog["touch"], lens)
+    if "rep" in prog:
+        return _spec_len(prog["rep"], lens)
     n = _spec_len(prog["sel"], lens)
     if n is None:
         return None
@@ -255,10 +257,19 @@ def _rand_prog(rng, lens, depth, fmt):
             p["chunk"] = rng.choice([1, 20, 60, 150])
         return p
     r = rng.random()
+    rep = FORMATS[fmt][3]
+    if rep and r < 0.07:
+        # replace a subset of fields INSIDE the program (operands of a later concatenate get different replaced-field sets)
+        p = _rand_prog(rng, lens, depth - 1, fmt)
+        n = _spec_len(p, lens)
+        if n:
+            ks = sorted(rng.sample(sorted(rep), rng.choice([1, 1, 2])))
+            return {"rep": p, "kw": [[k, rep[k], _new_values(rng, rep[k], n)] for k in ks]}
+        return p
     if r < 0.55 or not can_cat:
         p = _rand_prog(rng, lens, depth - 1, fmt)
         n = _spec_len(p, lens)
-        if r < 0.08:
+        if r < 0.12:
             return {"touch": p}
         return {"sel": p, "ix": _rand_idx(rng, n if n is not None else 2)}
     if r < 0.85:
@@ -308,17 +319,29 @@ def make_case(rng, fmt, depth, replace_p=0.3, eol=None):
 
 
 def _has_cat(p):
+    """field-level comparison applies: the program concatenates or replaces fields somewhere"""
     if "t" in p:
         return "chunk" in p
-    if "cat" in p or "catall" in p:
+    if "cat" in p or "catall" in p or "rep" in p:
         return True
     return _has_cat(p.get("touch") or p.get("sel"))
+
+
+def _has_rep(p):
+    if "t" in p or "catall" in p:
+        return False
+    if "rep" in p:
+        return True
+    if "cat" in p:
+        return any(_has_rep(q) for q in p["cat"])
+    return _has_rep(p.get("touch") or p.get("sel"))
 
 
 def _set_op(c):
     """GTF is never read lazily: outside the extractor model -> implementation vs oracle only. (FASTQ / two-line FASTA
     buffers have no `concatenate`: their concatenations are eager and modelled by `Prog.evalTab`.)"""
-    c["op"] = "eager" if c["fmt"] == "gtf" else "prog"
+    # replacements inside a program need the lazy table's overlay, which is C05's model: implementation vs oracle only here
+    c["op"] = "eager" if (c["fmt"] == "gtf" or _has_rep(c["prog"])) else "prog"
     return c
 
 
@@ -346,6 +369,47 @@ def cases(tier, rng):
             for k in rep:
                 yield dict(base, prog={"sel": {"t": 0}, "ix": {"slice": [None, None, -1]}},
                            repl=[[k, rep[k], _new_values(rng, rep[k], n0)]])
+    # 0b. two-step selections on a 7-record table of every format: a plain slice right after a non-contiguous selection,
+    #     with no write in between (d[::2][1:3], d[mask][:3], d[[4,0,2,6]][1:]), then written / concatenated / replaced
+    for fmt in fmts:
+        for eol in (["\n"] if fmt == "bam" else ["\n", "\r\n"]):
+            base = make_case(rng, fmt, 0, 0, eol)
+            while len(base["recs"][0]) < 7:
+                extra = make_case(rng, fmt, 0, 0, eol)
+                base["recs"][0] = (base["recs"][0] + extra["recs"][0])[:7]
+            if fmt in ("vcf", "vcfg"):      # one sample-column count per file
+                ok = len({r["raw"].count("\t") for r in base["recs"][0]}) == 1
+                if not ok:
+                    base["recs"][0] = [base["recs"][0][0]] * 7
+            d0 = {"t": 0}
+            firsts = [{"slice": [None, None, 2]}, {"mask": [True, False, True, True, False, True, True]}, {"ints": [4, 0, 2, 6]},
+                      {"slice": [5, 0, -2]}, {"ints": [6, 6, 1, 3, 1]}]
+            seconds = [{"slice": [1, 3, 1]}, {"slice": [None, 3, 1]}, {"slice": [1, None, 1]}, {"slice": [None, None, -1]},
+                       {"ints": [-1, 0]}, {"mask": None}]
+            for f in firsts:
+                n1 = len(_py_index(list(range(7)), f))
+                for g in seconds:
+                    g = {"mask": [i % 2 == 1 for i in range(n1)]} if "mask" in g else g
+                    two = {"sel": {"sel": d0, "ix": f}, "ix": g}
+                    yield _set_op(dict(base, prog=two))
+                    if fmt != "bam" and rng.random() < 0.5:
+                        yield _set_op(dict(base, prog={"cat": [two, {"sel": d0, "ix": g}]}))
+                    rep = FORMATS[fmt][3]
+                    n2 = _spec_len(two, [7] + [len(t) for t in base["recs"][1:]])
+                    if rep and n2 and rng.random() < 0.5:
+                        k = rng.choice(sorted(rep))
+                        yield _set_op(dict(base, prog=two, repl=[[k, rep[k], _new_values(rng, rep[k], n2)]]))
+            # operands of one concatenate with DIFFERENT replaced-field sets (non-canonical text around them)
+            rep = FORMATS[fmt][3]
+            if len(rep) >= 2:
+                ks = sorted(rep)
+                for _ in range(4):
+                    ka, kb = rng.sample(ks, 2)
+                    a = {"rep": {"sel": d0, "ix": {"slice": [None, 3, 1]}}, "kw": [[ka, rep[ka], _new_values(rng, rep[ka], 3)]]}
+                    b = {"rep": {"sel": d0, "ix": {"ints": [6, 4]}}, "kw": [[kb, rep[kb], _new_values(rng, rep[kb], 2)]]}
+                    yield _set_op(dict(base, prog={"cat": [a, b]}))
+                    yield _set_op(dict(base, prog={"cat": [a, {"sel": d0, "ix": {"slice": [3, 5, 1]}}]}))
+                    yield _set_op(dict(base, prog={"sel": {"cat": [{"t": 0}, b]}, "ix": {"slice": [None, None, -2]}}))
     # 1. random programs
     for fmt in fmts:
         m = per if fmt not in ("gtf", "bam") else per // 3
@@ -376,6 +440,8 @@ def _steps(p):
         return 1
     if "touch" in p:
         return 1 + _steps(p["touch"])
+    if "rep" in p:
+        return 1 + _steps(p["rep"])
     return 1 + _steps(p["sel"])
 
 
@@ -419,8 +485,57 @@ def _spec_eval(p, tabs):
         return [r for t in tabs[:p["catall"]] for r in t]
     if "touch" in p:
         return _spec_eval(p["touch"], tabs)
+    if "rep" in p:
+        return _spec_eval(p["rep"], tabs)
     r = _spec_eval(p["sel"], tabs)
     return None if r is None else _py_index(r, p["ix"])
+
+
+def _canon_text(kind, text):
+    return str(int(text)) if kind in ("int", "pos") else text
+
+
+def _field_eval(p, c):
+    """(rows of expected entry-field texts, set of replaced columns) — a column replaced in ANY operand of a concatenation is
+    a replaced column of the result (its other rows show the canonical spelling of their value); every other column keeps the
+    original text of every record. FASTQ / two-line FASTA concatenations are eager: every (text) column counts as replaced."""
+    fmt = c["fmt"]
+    nF = FORMATS[fmt][2]
+    kinds = FORMATS[fmt][3]
+    if "t" in p:
+        return [list(r["fields"][:nF]) for r in c["recs"][p["t"]]], set()
+    if "catall" in p:
+        return [list(r["fields"][:nF]) for t in c["recs"][:p["catall"]] for r in t], set()
+    if "cat" in p:
+        parts = [_field_eval(q, c) for q in p["cat"]]
+        if any(x is None for x in parts):
+            return None
+        union = set().union(*(s for _, s in parts))
+        rows = []
+        for rs, st in parts:
+            for r in rs:
+                r = list(r)
+                for k in union - st:
+                    r[k] = _canon_text(kinds.get(k, "str"), r[k])
+                rows.append(r)
+        return rows, union
+    if "touch" in p:
+        return _field_eval(p["touch"], c)
+    if "rep" in p:
+        x = _field_eval(p["rep"], c)
+        if x is None:
+            return None
+        rows, st = [list(r) for r in x[0]], set(x[1])
+        for k, kind, vals in p["kw"]:
+            st.add(k)
+            for i, r in enumerate(rows):
+                r[k] = _fmt_new(kind, vals[i])
+        return rows, st
+    x = _field_eval(p["sel"], c)
+    if x is None:
+        return None
+    rows = _py_index(x[0], p["ix"])
+    return None if rows is None else (rows, x[1])
 
 
 def _header(c):
@@ -452,9 +567,12 @@ def oracle(c):
         out = _header(c) + "".join(r["raw"] for r in rs)
         return {"out": out.encode("latin-1").hex() if c["fmt"] == "bam" else out}
     nF = FORMATS[c["fmt"]][2]
+    if _has_rep(c["prog"]):
+        base = [list(r) for r in _field_eval(c["prog"], c)[0]]
+    else:
+        base = [list(r["fields"][:nF]) for r in rs]
     rows = []
-    for i, r in enumerate(rs):
-        row = list(r["fields"][:nF])
+    for i, row in enumerate(base):
         for k, kind, vals in c["repl"]:
             row[k] = _fmt_new(kind, vals[i])
         rows.append(row)
@@ -557,6 +675,11 @@ def _run(p, paths, bt, bnp, scratch):
         with bnp.open(scratch, "w", buffer_type=bt) as w:
             w.write(t)
         return t
+    if "rep" in p:
+        from bionumpy.bnpdataclass import replace
+        t = _run(p["rep"], paths, bt, bnp, scratch)
+        names = FIELD_NAMES[_FMT_OF[id(paths)]]
+        return replace(t, **{names[k]: _new_column(kind, vals) for k, kind, vals in p["kw"]})
     return _run(p["sel"], paths, bt, bnp, scratch)[_np_idx(p["ix"])]
 
 
@@ -575,10 +698,15 @@ def _new_column(kind, vals):
     raise KeyError(kind)
 
 
+_FMT_OF = {}
+
+
 def impl(c):
     import bionumpy as bnp
     from bionumpy.bnpdataclass import replace
     d, paths = _write_tables(c)
+    _FMT_OF.clear()
+    _FMT_OF[id(paths)] = c["fmt"]
     try:
         bt = _buffer_type(c["fmt"])
         out = os.path.join(d, "out" + FORMATS[c["fmt"]][0])
